@@ -493,6 +493,68 @@ func c05(repo string, out *fg.Out) error {
 		return fmt.Errorf("parseColumnarEntry: string measurement branch not found")
 	}
 
+	// ---- ownership of the queued WAL entry: Append* copy the caller's payload into a fresh buffer that is the
+	// ONLY thing handed to the writer goroutine (the caller may re-use its slice as soon as the call returns)
+	wf, err := fg.ParseFile(repo, "internal/wal/wal.go")
+	if err != nil {
+		return err
+	}
+	copies := func(name string) (bool, error) {
+		f := wf.FuncDecl("Writer", name)
+		if f == nil {
+			return false, fmt.Errorf("wal.Writer.%s not found", name)
+		}
+		mk, cp, enq := false, false, false
+		ast.Inspect(f, func(nd ast.Node) bool {
+			switch x := nd.(type) {
+			case *ast.AssignStmt:
+				if len(x.Lhs) == 1 && len(x.Rhs) == 1 {
+					if id, ok := x.Lhs[0].(*ast.Ident); ok && id.Name == "entryData" {
+						if c, ok := x.Rhs[0].(*ast.CallExpr); ok && fg.CalleeName(c) == "make" {
+							mk = true
+						}
+					}
+				}
+			case *ast.CallExpr:
+				switch fg.CalleeName(x) {
+				case "copy":
+					if len(x.Args) == 2 && wf.Text(x.Args[1]) == "payload" && strings.HasPrefix(wf.Text(x.Args[0]), "entryData[") {
+						cp = true
+					}
+				case "tryEnqueue":
+					if len(x.Args) == 1 && wf.Text(x.Args[0]) == "entryData" {
+						enq = true
+					}
+				}
+			}
+			return true
+		})
+		return mk && cp && enq, nil
+	}
+	c1, err := copies("AppendRawWithMeta")
+	if err != nil {
+		return err
+	}
+	c2, err := copies("AppendRaw")
+	if err != nil {
+		return err
+	}
+	entryFields := 0
+	ast.Inspect(wf.AST, func(nd ast.Node) bool {
+		if ts, ok := nd.(*ast.TypeSpec); ok && ts.Name.Name == "walEntry" {
+			if st, ok := ts.Type.(*ast.StructType); ok {
+				for _, fl := range st.Fields.List {
+					entryFields += len(fl.Names)
+				}
+			}
+		}
+		return true
+	})
+	if entryFields == 0 {
+		return fmt.Errorf("type walEntry struct not found in internal/wal/wal.go")
+	}
+	ownsCopy := c1 && c2 && entryFields == 1
+
 	// ---- emit
 	L := &out.Lean
 	fmt.Fprintf(L, "namespace Arc.Generated.C05\n")
@@ -510,6 +572,8 @@ func c05(repo string, out *fg.Out) error {
 	fmt.Fprintf(L, "def walKeysLast : Bool := %v\n", last1)
 	fmt.Fprintf(L, "/-- parseColumnarEntry accepts an integer \"m\" as measurement_<n> (like extractMeasurement) -/\n")
 	fmt.Fprintf(L, "def replayAcceptsIntMeas : Bool := %v\n", acceptsInt)
+	fmt.Fprintf(L, "/-- AppendRawWithMeta / AppendRaw copy the caller's payload into the buffer they enqueue and walEntry carries\n    nothing else: the queued entry OWNS its bytes (the request buffer may be re-used after the ack) -/\n")
+	fmt.Fprintf(L, "def queuedEntryOwnsCopy : Bool := %v\n", ownsCopy)
 	fmt.Fprintf(L, "/-- normalizeTimestampColumns: (firstVal < bound, multiplier) rows, first match wins; negative = divide -/\n")
 	var rows []string
 	for _, r := range table {
@@ -529,6 +593,7 @@ func c05(repo string, out *fg.Out) error {
 	out.JSON["removedKeys"] = removed
 	out.JSON["walKeys"] = k1
 	out.JSON["walKeysLast"] = last1
+	out.JSON["queuedEntryOwnsCopy"] = ownsCopy
 	out.JSON["replayAcceptsIntMeas"] = acceptsInt
 	out.JSON["thresholds"] = table
 	out.JSON["elseMult"] = elseMult
